@@ -62,21 +62,62 @@ theorem uniqueAdj_strict_of_ge : ∀ {l : List Nat}, l.Pairwise (· ≥ ·) → 
         · exact (List.pairwise_cons.mp ht).1 w hw''
       omega
 
-theorem sortAsc_sorted (l : List Nat) : (sortAsc l).Pairwise (· ≤ ·) := by
-  have := List.pairwise_mergeSort (le := fun a b : Nat => decide (a ≤ b))
-    (by intro a b c; simp; omega) (by intro a b; simp; omega) l
-  simpa [sortAsc] using this
+theorem mem_insertBy {le : Nat → Nat → Bool} {x y : Nat} : ∀ {l : List Nat}, y ∈ insertBy le x l ↔ y = x ∨ y ∈ l
+  | [] => by simp [insertBy]
+  | z :: t => by
+    unfold insertBy
+    split
+    · simp
+    · simp [mem_insertBy (l := t)]; constructor
+      · rintro (h | h | h) <;> simp [h]
+      · rintro (h | h | h) <;> simp [h]
 
-theorem sortDesc_sorted (l : List Nat) : (sortDesc l).Pairwise (· ≥ ·) := by
-  have := List.pairwise_mergeSort (le := fun a b : Nat => decide (b ≤ a))
-    (by intro a b c; simp; omega) (by intro a b; simp; omega) l
-  simpa [sortDesc] using this
+theorem mem_sortBy {le : Nat → Nat → Bool} {y : Nat} : ∀ {l : List Nat}, y ∈ sortBy le l ↔ y ∈ l
+  | [] => by simp [sortBy]
+  | x :: t => by simp [sortBy, mem_insertBy, mem_sortBy (l := t)]
+
+theorem insertBy_sorted {le : Nat → Nat → Bool} (R : Nat → Nat → Prop)
+    (hle : ∀ a b, le a b = true → R a b) (hnle : ∀ a b, le a b = false → R b a)
+    (trans : ∀ a b c, R a b → R b c → R a c) (x : Nat) :
+    ∀ {l : List Nat}, l.Pairwise R → (insertBy le x l).Pairwise R
+  | [], _ => by simp [insertBy]
+  | y :: t, h => by
+    have h' := List.pairwise_cons.mp h
+    unfold insertBy
+    split
+    · next hxy =>
+      refine List.pairwise_cons.mpr ⟨?_, h⟩
+      intro z hz
+      rcases List.mem_cons.mp hz with rfl | hz'
+      · exact hle _ _ hxy
+      · exact trans _ _ _ (hle _ _ hxy) (h'.1 z hz')
+    · next hxy =>
+      have hxy' : le x y = false := by simpa using hxy
+      refine List.pairwise_cons.mpr ⟨?_, insertBy_sorted R hle hnle trans x h'.2⟩
+      intro z hz
+      rcases mem_insertBy.mp hz with rfl | hz'
+      · exact hnle _ _ hxy'
+      · exact h'.1 z hz'
+
+theorem sortBy_sorted {le : Nat → Nat → Bool} (R : Nat → Nat → Prop)
+    (hle : ∀ a b, le a b = true → R a b) (hnle : ∀ a b, le a b = false → R b a)
+    (trans : ∀ a b c, R a b → R b c → R a c) : ∀ (l : List Nat), (sortBy le l).Pairwise R
+  | [] => by simp [sortBy]
+  | x :: t => by
+    simp only [sortBy]
+    exact insertBy_sorted R hle hnle trans x (sortBy_sorted R hle hnle trans t)
+
+theorem sortAsc_sorted (l : List Nat) : (sortAsc l).Pairwise (· ≤ ·) :=
+  sortBy_sorted (· ≤ ·) (by intro a b; simp) (by intro a b; simp; omega) (by intro a b c; omega) l
+
+theorem sortDesc_sorted (l : List Nat) : (sortDesc l).Pairwise (· ≥ ·) :=
+  sortBy_sorted (· ≥ ·) (by intro a b; simp) (by intro a b; simp; omega) (by intro a b c; omega) l
 
 @[simp] theorem mem_cleanupFwd {x : Nat} {l : List Nat} : x ∈ cleanupFwd l ↔ x ∈ l := by
-  simp [cleanupFwd, mem_uniqueAdj, sortAsc]
+  simp [cleanupFwd, mem_uniqueAdj, sortAsc, mem_sortBy]
 
 @[simp] theorem mem_cleanupBwd {x : Nat} {l : List Nat} : x ∈ cleanupBwd l ↔ x ∈ l := by
-  simp [cleanupBwd, mem_uniqueAdj, sortDesc]
+  simp [cleanupBwd, mem_uniqueAdj, sortDesc, mem_sortBy]
 
 theorem cleanupFwd_strict (l : List Nat) : (cleanupFwd l).Pairwise (· < ·) :=
   uniqueAdj_strict_of_le (sortAsc_sorted l)
